@@ -12,7 +12,7 @@ RULES = {
     "R-06.1": "each rich comparison of Name returns fullcompare(other)[1] <op> 0 with the operator its name says; foreign operands give NotImplemented / False / True",
     "R-06.2": "fullcompare folds BOTH labels with the same normaliser, __hash__ folds every octet with it, canonicalize() uses it",
     "R-06.3": "fullcompare: mirrored </> arms, relative-before-absolute, right-to-left scan, length tie-break, relation from the length difference; is_subdomain/is_superdomain accept exactly {SUB|SUPER}DOMAIN and EQUAL",
-    "R-06.5": "RFC 4471 octet stepping is monotone under the canonical fold: the octets special-cased by `octet == CONST` in the increment branch of _absolute_successor cover every octet o where fold(o+1) <= fold(o) and send it to a value that folds strictly higher; likewise for the decrement in _absolute_predecessor (fold = ASCII lower-casing, computed by the checker from RFC 4034 6.1, not by running the code)",
+    "R-06.5": "RFC 4471 octet stepping is monotone under the canonical fold: constant propagation of the octet variable through the increment fragment of _absolute_successor (resp. the decrement of _absolute_predecessor), for each of the 256 octet values, yields a value that folds strictly higher (lower); fold = ASCII lower-casing of RFC 4034 6.1; the fragment is interpreted by the checker (int + - == < and if), the repository code is not run",
     "R-06.4": "relativize strips exactly len(origin) labels and only under is_subdomain(origin); derelativize appends only to relative names; choose_relativity dispatches on origin/relativize",
 }
 OPS = {"__eq__": "==", "__ne__": "!=", "__lt__": "<", "__le__": "<=", "__ge__": ">=", "__gt__": ">"}
@@ -238,53 +238,96 @@ def run(model, rep, tier):
     def fold(o):
         return o + 32 if 0x41 <= o <= 0x5A else o
     nmod = model.module("dns.name")
-    for qn, delta, what in (("dns.name._absolute_successor", +1, "increment"), ("dns.name._absolute_predecessor", -1, "decrement")):
+
+    class _Skip(Exception):
+        pass
+
+    class _Unknown(Exception):
+        pass
+
+    def _val(e, var, cur):
+        if isinstance(e, ast.Name) and e.id == var:
+            return cur
+        try:
+            v = model.const(nmod, e)
+        except AnalysisError:
+            raise _Unknown(src(e))
+        if isinstance(v, (bytes, str)) and len(v) == 1:
+            v = ord(v)
+        if not isinstance(v, int):
+            raise _Unknown(src(e))
+        return v
+
+    def _test(t, var, cur):
+        if isinstance(t, ast.BoolOp):
+            vals = [_test(v, var, cur) for v in t.values]
+            return all(vals) if isinstance(t.op, ast.And) else any(vals)
+        if isinstance(t, ast.UnaryOp) and isinstance(t.op, ast.Not):
+            return not _test(t.operand, var, cur)
+        if isinstance(t, ast.Compare):
+            left = _val(t.left, var, cur)
+            for op, c in zip(t.ops, t.comparators):
+                right = _val(c, var, cur)
+                ok_ = {ast.Eq: left == right, ast.NotEq: left != right, ast.Lt: left < right, ast.LtE: left <= right, ast.Gt: left > right, ast.GtE: left >= right}.get(type(op))
+                if ok_ is None:
+                    raise _Unknown(src(t))
+                if not ok_:
+                    return False
+                left = right
+            return True
+        raise _Unknown(src(t))
+
+    def _run(stmts, var, cur):
+        """constant propagation of the octet variable through a straight-line/if fragment (the checker's own semantics of + - == < on ints)"""
+        for st in stmts:
+            if isinstance(st, ast.If):
+                cur = _run(st.body if _test(st.test, var, cur) else st.orelse, var, cur)
+            elif isinstance(st, ast.AugAssign) and src(st.target) == var and isinstance(st.op, (ast.Add, ast.Sub)):
+                d = _val(st.value, var, cur)
+                cur = cur + d if isinstance(st.op, ast.Add) else cur - d
+            elif isinstance(st, ast.Assign) and len(st.targets) == 1 and src(st.targets[0]) == var:
+                cur = _val(st.value, var, cur)
+            elif isinstance(st, ast.Continue):
+                raise _Skip()
+            elif isinstance(st, (ast.Pass, ast.Expr)) and not any(isinstance(x, ast.Call) for x in ast.walk(st)):
+                continue
+            else:
+                raise _Unknown(src(st)[:40])
+        return cur
+
+    for qn, delta, what, domain in (("dns.name._absolute_successor", +1, "increment", range(0, 256)), ("dns.name._absolute_predecessor", -1, "decrement", range(1, 256))):
         f = model.func(qn)
-        step = [n for n in ast.walk(f.node) if isinstance(n, ast.AugAssign) and isinstance(n.target, ast.Name) and isinstance(n.value, ast.Constant) and n.value.value == 1
-                and isinstance(n.op, ast.Add if delta > 0 else ast.Sub)]
-        chain = None
-        for n in ast.walk(f.node):
-            if isinstance(n, ast.If):
-                # the if/elif chain whose final else is the plain +/-1 step
-                arms, cur = [], n
-                while True:
-                    arms.append(cur)
-                    if len(cur.orelse) == 1 and isinstance(cur.orelse[0], ast.If):
-                        cur = cur.orelse[0]
-                    else:
-                        break
-                if step and any(x is step[0] for x in cur.orelse) and all(len(a.body) == 1 and isinstance(a.body[0], ast.Assign) for a in arms):
-                    chain = arms
-        if not step or chain is None:
-            rep.blind("R-06.5", qn, where(f, f.node), f"the {what} step (`octet {'+' if delta > 0 else '-'}= 1` as the final else of an if/elif chain of `octet == CONST` special cases) was not recognised", stmt="octet-step")
+        frag = None
+        for blk in _blocks(f.node):
+            loads = [i for i, st in enumerate(blk) if isinstance(st, ast.Assign) and len(st.targets) == 1 and isinstance(st.targets[0], ast.Name) and isinstance(st.value, ast.Subscript) and src(st.value.value) == "octets"]
+            for i0 in loads:
+                var = blk[i0].targets[0].id
+                stores = [j for j in range(i0 + 1, len(blk)) if isinstance(blk[j], ast.Assign) and isinstance(blk[j].targets[0], ast.Subscript) and src(blk[j].targets[0].value) == "octets" and src(blk[j].value) == var]
+                if stores:
+                    frag = (var, blk[i0 + 1:stores[0]], blk[i0])
+        if frag is None:
+            rep.blind("R-06.5", qn, where(f, f.node), f"the octet {what} fragment (`octet = octets[..]` ... `octets[..] = octet`) was not found", stmt="octet-step")
             continue
-        var = step[0].target.id
-        special = {}
-        okk = True
-        for a in chain:
-            at = atoms(normalise_compare(a.test))
+        var, stmts, anchor = frag
+        bad_o, unknown = [], None
+        n_stepped = 0
+        for o in domain:
             try:
-                if len(at) != 1 or at[0][0] != var or at[0][1] != "==":
-                    raise AnalysisError("shape")
-                k = model.const(nmod, ast.parse(at[0][2], mode="eval").body)
-                v = model.const(nmod, a.body[0].value)
-                if not (src(a.body[0].targets[0]) == var and isinstance(k, int) and isinstance(v, int)):
-                    raise AnalysisError("shape")
-                special[k] = v
-            except AnalysisError:
-                okk = False
-        if not okk:
-            rep.blind("R-06.5", qn, where(f, chain[0]), "a special case of the octet step is not of the form `if octet == CONST: octet = CONST`", stmt="octet-step")
+                r = _run(stmts, var, o)
+            except _Skip:
+                continue
+            except _Unknown as ex:
+                unknown = str(ex)
+                break
+            n_stepped += 1
+            if not (0 <= r <= 255) or not (fold(r) > fold(o) if delta > 0 else fold(r) < fold(o)):
+                bad_o.append((o, r))
+        if unknown is not None:
+            rep.blind("R-06.5", qn, where(f, anchor), f"the octet {what} fragment contains `{unknown}`, which the constant propagation over octet values does not interpret", stmt="octet-step")
             continue
-        rng = range(0, 255) if delta > 0 else range(1, 256)
-        need = sorted(o for o in rng if (fold(o + delta) <= fold(o) if delta > 0 else fold(o + delta) >= fold(o)))
-        missing = [o for o in need if o not in special]
-        wrong = [o for o, v in special.items() if not (fold(v) > fold(o) if delta > 0 else fold(v) < fold(o))]
-        rep.check(not missing and not wrong, "R-06.5", qn, where(f, chain[0]),
-                  f"special cases {{{', '.join(repr(chr(o)) + '->' + repr(chr(v)) for o, v in sorted(special.items()))}}} cover the octets {[chr(o) for o in need]} where a plain {what} is not monotone under case folding",
-                  f"the plain {what} is not monotone under the canonical (case-folded) order at {[chr(o) for o in missing]} and these octets are not special-cased"
-                  + (f"; special cases {[chr(o) for o in wrong]} map to a value that does not sort strictly {'after' if delta > 0 else 'before'}" if wrong else "")
-                  + f": the {'successor' if delta > 0 else 'predecessor'} of a name ending in such an octet sorts on the wrong side of the name", stmt="octet-step")
+        rep.check(not bad_o and n_stepped >= 200, "R-06.5", qn, where(f, anchor), f"for all {n_stepped} octet values that are stepped, the result folds strictly {'higher' if delta > 0 else 'lower'}",
+                  f"the octet {what} is not monotone under the canonical (case-folded) order for {[(chr(o), chr(r) if 0 <= r < 256 else r) for o, r in bad_o[:6]]}"
+                  f"{' ...' if len(bad_o) > 6 else ''}: the {'successor' if delta > 0 else 'predecessor'} of a name whose stepped octet is one of these sorts on the wrong side of the name", stmt="octet-step")
     rep.assume("bytes comparison and bytes.lower() are trusted (ASCII-only folding, total order on octet strings)")
     rep.meta["explanation"] = (
         "Names are touched only through comparisons, a finite structure: the operator table, the single normaliser shared by compare/hash/canonical forms, "
@@ -292,7 +335,21 @@ def run(model, rep, tier):
         "properties of bytes comparison (trusted). RFC 4471 successor/predecessor arithmetic (incl. the known failure for a label of 63 'Z' octets) is NOT decided.")
 
 
+def _blocks(fn):
+    out = []
+    for n in ast.walk(fn):
+        for fld in ("body", "orelse", "finalbody"):
+            b = getattr(n, fld, None)
+            if isinstance(b, list) and b and isinstance(b[0], ast.stmt):
+                out.append(b)
+    return out
+
+
 WITNESSES = [
+    {"id": "c06-successor-steps-onto-bracket-for-all-uppercase", "rule": "R-06.5", "file": "dns/name.py", "expect": "fires",
+     "old": "            if octet == _AT_SIGN_VALUE:\n                octet = _LEFT_SQUARE_BRACKET_VALUE\n            elif octet == _UPPER_Z_VALUE:", "new": "            if 0x40 <= octet <= 0x59:\n                octet = _LEFT_SQUARE_BRACKET_VALUE\n            elif octet == _UPPER_Z_VALUE:"},
+    {"id": "c06-twin-successor-z-literal", "rule": "R-06.5", "file": "dns/name.py", "expect": "silent",
+     "old": "            elif octet == _UPPER_Z_VALUE:", "new": "            elif octet == 0x5A:"},
     {"id": "c06-successor-z-not-special", "rule": "R-06.5", "file": "dns/name.py", "expect": "fires",
      "old": "            elif octet == _UPPER_Z_VALUE:\n                # \"Z\" compares as \"z\", so the next value in canonical order is \"{\";\n                # \"[\" would sort before the name.\n                octet = _LEFT_CURLY_BRACKET_VALUE\n", "new": ""},
     {"id": "c06-predecessor-bracket-not-special", "rule": "R-06.5", "file": "dns/name.py", "expect": "fires",
